@@ -124,6 +124,9 @@ def run_program(prog, scheduler='default', policy='random', seed=0, ops=None, du
                     n += 1
                 continue
             en = w.enabled()
+            for mid in w.sync_delivered:
+                if mid not in delivered_msgs and w.msgs[mid].sender != 'operator':
+                    delivered_msgs.append(mid)
             if dup_budget > 0 and delivered_msgs and rnd.random() < 0.15:
                 mid = rnd.choice(delivered_msgs)
                 obs, ids = record(w.step(('dup', mid)))
